@@ -1,5 +1,5 @@
 (* C10 - executable model of nipy's own logic in
-     nipy/modalities/fmri/utils.py   (step_function, blocks, events, interp fill
+     nipy/modalities/fmri/utils.py   (step_function, blocks [as of 4e8ac11: sorted by interval], events, interp fill
                                       rule, _eval_for, _conv_fx_gx, convolve_functions,
                                       TimeConvolver)
      nipy/algorithms/statistics/formula/formulae.py
@@ -48,13 +48,31 @@ Fixpoint blocks_tv (l : list block) : list (xt * Q) :=
 Definition amps_or_ones (n : nat) (a : option (list Q)) : list Q :=
   match a with Some l => l | None => repeat 1 n end.
 
-(* utils.blocks on already zipped (interval, amplitude) pairs *)
+(* the time/value lists handed to step_function for blocks visited in the order of l *)
 Definition blocks_pairs (l : list block) (x : Q) : Q :=
   step_eval 0 ((NegInf, 0) :: blocks_tv l ++ [(PosInf, 0)]) x.
 
-(* utils.blocks(intervals, amplitudes): zip truncates to the shorter *)
+Definition Qlt_b (x y : Q) : bool := negb (Qle_bool y x).
+
+(* sorted(zip(intervals, amplitudes), key=lambda ta: tuple(ta[0])) (since 4e8ac11):
+   key = (on, off) compared lexicographically; Python's sort is stable, so
+   pairs with equal keys keep their listed order.  Stable insertion sort. *)
+Definition key_le (p q : block) : bool :=
+  Qlt_b (fst (fst p)) (fst (fst q))
+  || (Qeq_bool (fst (fst p)) (fst (fst q)) && Qle_bool (snd (fst p)) (snd (fst q))).
+Fixpoint insert_block (p : block) (l : list block) : list block :=
+  match l with
+  | [] => [p]
+  | q :: r => if key_le p q then p :: q :: r else q :: insert_block p r
+  end.
+Definition sort_blocks (l : list block) : list block := fold_right insert_block [] l.
+
+(* utils.blocks on the zipped (interval, amplitude) pairs, listed in any order *)
+Definition blocks_sorted_pairs (l : list block) (x : Q) : Q := blocks_pairs (sort_blocks l) x.
+
+(* utils.blocks(intervals, amplitudes): zip truncates to the shorter, then the sort *)
 Definition blocks_eval (ivs : list (Q * Q)) (amps : option (list Q)) (x : Q) : Q :=
-  blocks_pairs (combine ivs (amps_or_ones (length ivs) amps)) x.
+  blocks_sorted_pairs (combine ivs (amps_or_ones (length ivs) amps)) x.
 
 (* what the property says blocks should be: the amplitude of the block
    [on, off) containing x (first such block), else 0 *)
@@ -68,6 +86,13 @@ Fixpoint sorted_blocks (lo : Q) (l : list block) : Prop :=
   match l with
   | [] => True
   | ((a, b), _) :: r => lo <= a /\ a <= b /\ sorted_blocks b r
+  end.
+
+(* sorted, stated pairwise: every later block starts at or after the end of every earlier one *)
+Fixpoint sorted_strong (l : list block) : Prop :=
+  match l with
+  | [] => True
+  | p :: r => fst (fst p) <= snd (fst p) /\ Forall (fun q => snd (fst p) <= fst (fst q)) r /\ sorted_strong r
   end.
 
 (* pairwise disjoint half-open intervals, in ANY order *)
@@ -112,8 +137,6 @@ Definition keval (k : kern) (s : Q) : Q :=
 (* ------------------------------------------------------------------ *)
 (* Part 1c: interp / linear_interp (fill rule + linear interpolant)     *)
 (* ------------------------------------------------------------------ *)
-
-Definition Qlt_b (x y : Q) : bool := negb (Qle_bool y x).
 
 (* value on the segment structure t0 < t1 < ...; first segment with x <= t_{i+1}
    (scipy: searchsorted(x, x_new) clipped to [1, n-1]) *)
